@@ -79,6 +79,30 @@ func init() {
 		}
 		return &sched.Scenario{Cfg: sim.Config{N: n}, Seed: append(seed, out...), Asked: asked}
 	})
+	// ffboot:<n>:<steps>:<node>:<downAt>:<uppos>:<cache>
+	// validator <node> keeps its events in a Badger database and runs with fast-sync enabled. It stops at seed
+	// position <downAt> and is restarted at <uppos> with bootstrap: it replays its own database (re-delivering
+	// its blocks 0..N to the new application), then - as every fast-sync node does after Init - is CatchingUp
+	// and fast-forwards to the best anchor its peers offer, which may be older or newer than its own block N.
+	sched.RegisterScenario("ffboot", func(p []string) *sched.Scenario {
+		n, steps, node, downAt, uppos, cache := atoi(p[1]), atoi(p[2]), atoi(p[3]), atoi(p[4]), atoi(p[5]), atoi(p[6])
+		var out []sched.Action
+		out = append(out, sched.Action{K: "FF", A: node}) // nobody has an anchor yet: goes on to Babbling
+		for i, a := range sched.FairSeed(nodesOf(n), steps, 4) {
+			if i == downAt {
+				out = append(out, sched.Action{K: "Crash", A: node})
+			}
+			if i == uppos {
+				out = append(out, sched.Action{K: "Restart", A: node, Lim: 3}, sched.Action{K: "FF", A: node})
+			}
+			out = append(out, a)
+		}
+		cfg := sim.Config{N: n, FastSyncOf: map[int]bool{node: true}, Badger: map[int]bool{node: true}, Dir: scratchDir()}
+		if cache > 0 {
+			cfg.CacheOf = map[int]int{node: cache}
+		}
+		return &sched.Scenario{Cfg: cfg, Seed: out}
+	})
 	// ffrestart:<n>:<steps>:<node>:<downAt>:<ffpos>:<server+1>
 	// validator <node> crashes at <downAt>, is restarted empty with fast-sync at <ffpos> and fast-forwards.
 	sched.RegisterScenario("ffrestart", func(p []string) *sched.Scenario {
@@ -99,7 +123,7 @@ func init() {
 
 	checks["C13"] = func(args []string) int {
 		th := ev.Tier() == "thorough"
-		mons := []string{"C01ff", "C13f", "C10"}
+		mons := []string{"C01ff", "C13f", "C10", "C02"}
 		var ph []Phase
 		add := func(name string, items []sched.Item) { ph = append(ph, Phase{Name: name, Items: items}) }
 		item := func(sc string) sched.Item { return sched.Item{Scenario: sc, Mode: "s3", Mons: mons, Suffix: 40} }
@@ -134,6 +158,19 @@ func init() {
 		add("same, followed by a second join (4->5) six steps after the fast-forward", b)
 		add("joiner (4->5) fast-forwards at p, then validator 3 leaves", c2)
 		add("validator 3 of 4 crashes, restarts empty with fast-sync at p and fast-forwards", d)
+		var fb []sched.Item
+		for down := 10; down <= 60; down++ {
+			for _, gap := range []int{0, 12, 30} {
+				if gap > 0 && !th && down%4 != 0 {
+					continue
+				}
+				fb = append(fb, item(fmt.Sprintf("ffboot:3:100:2:%d:%d:0", down, down+gap)))
+				if th || down%4 == 0 {
+					fb = append(fb, item(fmt.Sprintf("ffboot:4:100:3:%d:%d:0", down, down+gap)))
+				}
+			}
+		}
+		add("a validator (2 of 3 / 3 of 4) on Badger with fast-sync enabled stops at d (d=10..60) and is restarted with bootstrap 0, 12 or 30 steps later: replays its database, is CatchingUp, runs Node.fastForward (anchor behind, equal to or ahead of its own last block)", fb)
 		if th {
 			name := "ffjoin:3:5:110:44:0:0"
 			add("S3 d<=1 around the joiner fast-forward at p=44 (every 2nd position, level 0)", s3Items(name, 1, seedPositions(name, 10, 0, 2), devAlphabet(nodesOf(4), 0, 0), mons, 40))
@@ -146,7 +183,7 @@ func init() {
 		}
 		return runCluster(ClusterCheck{
 			Prop: "C13", Level: "model_checking", Budget: budget(bud), Phases: ph, Floor: 10,
-			AlsoProps: []string{"C10"},
+			AlsoProps: []string{"C10", "C02"},
 			Rule:      "every seed position p at which a catching-up node (an accepted joiner with fast-sync, before or after its effective round; a validator restarted empty) runs the real Node.fastForward against every serving peer, followed by the rest of the seed (optionally a second join or a leave after the reset) and the fair suffix. Oracle after every step: blocks delivered by the reset node from anchor+1 on equal the first delivery of that index by anybody (same digest as C01, incl. state hash from the restored snapshot) as long as the reset node reported no insertion error; its validator-set table evolves by the C10 replay from the table it adopted and agrees with full-history nodes for rounds >= the anchor round; frames of every processed round have equal hashes on all full-history nodes",
 			Extra: func(cov map[string]interface{}, agg *Agg) {
 				cov["fast_forwards_performed"] = agg.Counters["ff_done"]
